@@ -119,6 +119,7 @@ class BleAccessory:
         self.pairings_reply = None  # TLV items the /pairings characteristic answers with
         self.response_hook = None  # hook(client, handle, fragments) -> fragments (C06 fault injection)
         self.requests: list = []
+        self.unverified_writes: list = []
         self.allow_resume = True
 
     def pairing_data(self):
@@ -228,6 +229,7 @@ class FakeBleClient:
         self.endpoints: dict[FakeHandle, GattEndpointSim] = {}
         self.gate = None  # asyncio.Event the next read waits for (suspension point for cancellation sweeps)
         self.read_fault = None  # exception instance raised by the next read
+        self.disconnect_fault = None  # exception instance raised by disconnect() (the link is gone, no callback)
         self.reads = 0
         self.writes = 0
         for iid, (svc, ctype, fmt, perms, value) in accessory.chars.items():
@@ -278,6 +280,9 @@ class FakeBleClient:
             raise BleakError("not connected")
         self.writes += 1
         await asyncio.sleep(0)
+        if self.session is None and handle.iid != 21:
+            # ground truth: bytes handed to a peer that has NOT completed pair-verify on this link, outside the pair-verify characteristic
+            self.accessory.unverified_writes.append((self.index, handle.iid, len(data)))
         try:
             self.endpoints[handle].on_write(data)
         except InvalidTag:
@@ -312,6 +317,11 @@ class FakeBleClient:
         return None
 
     async def disconnect(self):
+        if self.disconnect_fault is not None:
+            # the host's Bluetooth stack died under us (dead D-Bus socket): disconnect() raises and no callback is ever delivered
+            fault, self.disconnect_fault = self.disconnect_fault, None
+            self.is_connected = False
+            raise fault
         await self._drop()
 
     async def _drop(self):
@@ -431,6 +441,59 @@ async def c01_sessions(ctx) -> None:
                 ctx.count("ble_impostor_probes")
         finally:
             await w.close()
+        # ---- an honest session ends (closed cleanly / disconnect() raising / dropped by the peer); whoever answers on the NEXT link
+        # has to prove itself again: an impostor there gets pair-verify and nothing else ----
+        from bleak.exc import BleakError
+
+        for end in ("close", "close-raises-EOFError", "close-raises-BleakError", "peer-drop", "close-after-operation-raises"):
+            w = BleWorld(ctx.grng("C01.ble-relink", idx, end))
+            replay = {"kind": "ble", "idx": idx, "end": end}
+            ctx.case("ble-relink", idx, end, sample={"kind": "ble honest session, link ends, impostor on the next link", "end": end}, kind="ble")
+            try:
+                acc = w.accessory
+                try:
+                    r1 = await asyncio.wait_for(w.pairing.get_characteristics([(1, 11)]), 120)
+                except Exception as ex:  # noqa: BLE001
+                    ctx.violation(f"ble-session-fails-{type(ex).__name__}", f"honest BLE session failed: {ex!r}", replay)
+                    continue
+                client = acc.clients[-1]
+                try:
+                    if end == "close":
+                        await w.pairing.close()
+                    elif end == "peer-drop":
+                        await client._drop()
+                    else:
+                        client.disconnect_fault = EOFError() if "EOFError" in end or "operation" in end else BleakError("Not connected")
+                        if "operation" in end:
+                            await w.pairing.close_after_operation()
+                        else:
+                            await w.pairing.close()
+                except Exception as ex:  # noqa: BLE001 - how close() itself ends is not judged here
+                    ctx.count("ble_relink_close_raised_" + type(ex).__name__)
+                for _ in range(3):
+                    await asyncio.sleep(0)
+                acc.verify_mode = "bad_sig"
+                acc.allow_resume = False
+                acc.identity.sessions.clear()
+                n_req, n_sess, n_clients = len(acc.requests), len(acc.sessions), len(acc.clients)
+                outcomes = []
+                for n in range(2):
+                    try:
+                        r = await asyncio.wait_for(w.pairing.get_characteristics([(1, 11)]), 120)
+                        outcomes.append(("returned", r))
+                    except Exception as ex:  # noqa: BLE001
+                        outcomes.append(("raised", type(ex).__name__))
+                leaked = [(r["opcode"], r["iid"]) for r in acc.requests[n_req:] if r["iid"] != 21]
+                raw = [u for u in acc.unverified_writes if u[0] >= n_clients]
+                if len(acc.clients) == n_clients:
+                    ctx.count("ble_relink_no_new_link")  # nothing to judge: the controller never reached the impostor
+                elif leaked or raw or len(acc.sessions) != n_sess or any(o[0] == "returned" for o in outcomes):
+                    ctx.violation("request-sent-to-unverified-peer", f"BLE: after the session ended by {end}, an impostor answered on the next link (forged M2); operations ended {outcomes}; "
+                                  f"the unverified peer received HAP requests {leaked[:4]} / raw writes (link, iid, bytes) {raw[:4]} (new sessions: {len(acc.sessions) - n_sess})", replay)
+                else:
+                    ctx.count("ble_relink_impostor_probes")
+            finally:
+                await w.close()
 
 
 # ---------------------------------------------------------------------------------------------
